@@ -12,6 +12,7 @@ from psv.simk import _pslinux, psutil
 O_APPEND = 0o2000
 
 META = dict(
+    crosshair="c14.py",
     assumptions=[
         "/proc/<pid>/fdinfo/<fd> starts with `pos:\\t<decimal>` and `flags:\\t0<octal>` (fs/proc/fd.c)",
         "a descriptor is a regular file iff stat() of its absolute link target says S_IFREG",
@@ -55,8 +56,8 @@ def flags_mode(ctx):
 KINDS = ["reg", "deleted", "deleted_stale", "relative", "socket", "pipe", "anon", "chardev", "toolong", "notlink", "closed_at_readlink", "closed_at_readlink_esrch", "closed_at_fdinfo", "closed_at_fdinfo_esrch", "directory"]
 
 
-@harness("C14.open_files", quick=[dict(n=n, acc3=False) for n in (0, 1, 2)] + [dict(n=1, acc3=True)], thorough=[dict(n=n, acc3=False) for n in (0, 1, 2, 3, 4)] + [dict(n=2, acc3=True)])
-def open_files(ctx, n, acc3):
+@harness("C14.open_files", quick=[dict(n=n, acc3=False) for n in (0, 1, 2)] + [dict(n=1, acc3=True)], thorough=[dict(n=n, acc3=False) for n in (0, 1, 2, 3)] + [dict(n=n, acc3=False, nsym=2) for n in (4, 5)] + [dict(n=2, acc3=True)])
+def open_files(ctx, n, acc3, nsym=None):
     k = simk.Kernel(ctx)
     simk.system_files(k)
     simk.full_process(k, 77)
@@ -65,7 +66,8 @@ def open_files(ctx, n, acc3):
         if name.startswith("/proc/77/fd/"):
             del k.links[name]
     for i in range(n):
-        kind = ctx.choice(f"kind{i}", KINDS)
+        # nsym: only the first nsym descriptors have a symbolic kind, the others cycle through fixed kinds (keeps 4-5 descriptors affordable)
+        kind = ctx.choice(f"kind{i}", KINDS) if nsym is None or i < nsym else ("reg", "socket", "deleted_stale")[(i - nsym) % 3]
         fd = 3 + 2 * i
         fds.append(str(fd))
         link, info = f"/proc/77/fd/{fd}", f"/proc/77/fdinfo/{fd}"
